@@ -127,9 +127,9 @@ def run(ctx):
     r = run_tlc("Archive", "SPECIFICATION Spec\n" + BASE % (uni, mm, mk, "") + INVS, scratch=ctx.scratch, timeout=1500)
     ev.tlc(f"Archive: reference design, {uni} lists <= {mm}, histories k <= {mk}: all invariants", r)
     if thorough:
-        r3 = run_tlc("Archive", "SPECIFICATION Spec\n" + BASE % ("MT_C09s", 3, 2, "") + INVS, scratch=ctx.scratch,
+        r3 = run_tlc("Archive", "SPECIFICATION Spec\n" + BASE % ("MT_C09s", 3, 1, "") + INVS, scratch=ctx.scratch,
                      timeout=2400, heap="8g")
-        ev.tlc("Archive: reference design, MT_C09s lists <= 3, histories k <= 2: all invariants", r3)
+        ev.tlc("Archive: reference design, MT_C09s lists <= 3, histories k <= 1: all invariants", r3)
     for d in (SENS if thorough else ["RereadUnchecked", "NoCleanupOnEarlyExit"]):
         rs = run_tlc("Archive", "SPECIFICATION Spec\n" + BASE % (uni, mm, mk, f'"{d}"') + INVS, scratch=ctx.scratch,
                      expect_fail=True, timeout=900)
@@ -138,7 +138,7 @@ def run(ctx):
             raise MachineryError(f"sensitivity run with deviation {d} did not fail: invariant vacuous")
     # ---- 2. enumerate cases, run them
     if thorough:
-        rg, cases = dump_cases(ctx, "MT_C09s", 3, 2, "c09gen")
+        rg, cases = dump_cases(ctx, "MT_C09s", 3, 1, "c09gen")
         rg2, cases2 = dump_cases(ctx, "MT_C09", 2, 2, "c09gen2")
         ev.tlc("ArchiveGen: cases MT_C09 lists <= 2", rg2)
         seen = {json.dumps(c, sort_keys=True) for c in cases}
@@ -191,7 +191,7 @@ def run(ctx):
     ev.set(rule="cases = initial states of ArchiveGen (format x member list over [kind, name class] x consumer "
                 "history), every case concretised and run; non-trivial = hostile name / special kind / early "
                 "close, abandon or throw", exhaustive=True,
-           constants={"universe": "MT_C09 lists<=2" + (" + MT_C09s lists<=3" if thorough else ""), "cases": len(cases),
+           constants={"universe": "MT_C09 lists<=2, k<=2" + (" + MT_C09s lists<=3, k<=1" if thorough else ""), "cases": len(cases),
                       "default_limit_cases": len(big), "fs_effects_recorded": n_fs})
     ev.assume("POSIX host (backslash and drive-letter names are ordinary file names)",
               "effects are observed through sys.addaudithook (open, os.mkdir/remove/rmdir/rename/symlink/link/scandir/"
